@@ -12,7 +12,7 @@ class Prop(BaseProp):
             "thorough) x MRTS regimes; each execution of isi_profile and isi_distance is compared with the exact "
             "rational model (breakpoints exactly, values 1e-9). distinct = distinct interleaving words "
             "(merged owner sequence + edge flags + MRTS regime) among pairs with >=1 spike per train and >=3 spikes")
-    budget = {"quick": 1600, "thorough": 60000}
+    budget = {"quick": 3200, "thorough": 1200000}
     must_see = ["empty_train", "one_spike_train", "spike_on_t_start", "spike_on_t_end", "shared_interior_spike",
                 "shared_spike_on_t_start", "shared_spike_on_t_end", "mrts_below_all_isis", "mrts_between_isis",
                 "mrts_above_all_isis", "one_spike_train_on_t_start", "one_spike_train_on_t_end"]
